@@ -131,6 +131,32 @@ pub fn check(c: &Case) -> CheckResult {
     ok(c.size >= 3 * CS as u64, format!("{:?}/{}{}", c.mode, match c.size { 0..=196_607 => "<3chunks", 196_608..=16_777_215 => "<16MiB", 16_777_216..=268_435_455 => "<256MiB", _ => ">=256MiB" }, if c.read_var == 0 { "/full-reads" } else { "/short-reads" }))
 }
 
+/// A complete authentic file followed by `tail` further bytes produced on the fly: rejecting it must not cost
+/// memory that grows with the amount of data that follows the final chunk.
+#[derive(Clone, Debug, Serialize, Deserialize)]
+pub struct TailCase { pub tail: u64, pub mode: Mode, pub seed: u64 }
+struct TailReader { head: Vec<u8>, pos: usize, tail_left: u64, pulled_after: u64 }
+impl Read for TailReader {
+    fn read(&mut self, buf: &mut [u8]) -> io::Result<usize> {
+        if self.pos < self.head.len() { let n = buf.len().min(self.head.len() - self.pos); buf[..n].copy_from_slice(&self.head[self.pos..self.pos + n]); self.pos += n; return Ok(n); }
+        let n = (buf.len() as u64).min(self.tail_left) as usize; for b in buf[..n].iter_mut() { *b = 0x41; } self.tail_left -= n as u64; self.pulled_after += n as u64; Ok(n)
+    }
+}
+pub fn check_tail(c: &TailCase) -> CheckResult {
+    let (_, bd) = baseline(c.mode)?;
+    let s = kx::ident(c.seed, "S"); let r = kx::ident(c.seed, "R"); let plain = gen::bytes_from(c.seed, 70_000);
+    let head = match c.mode { Mode::Key => kx::key_encrypt_simple(&plain, &s, &r.pk, None, None)?, Mode::Pass => { let (res, sh) = kx::pass_encrypt(&plain, &crate::sio::RSched::full(), &crate::sio::WSched::all(), None, PW, gen::key32(c.seed, "salt")); if !res.is_ok() { return Err(format!("{:?}", res)); } sh.sink.take() } };
+    let mut rd = TailReader { head, pos: 0, tail_left: c.tail, pulled_after: 0 };
+    let mut sink = Verify { seed: c.seed, pos: 0, bad: None, written: Arc::new(std::sync::atomic::AtomicU64::new(0)) };
+    let (rsk, rpk) = (kx::sk(&r.sk), kx::pk(&r.pk));
+    alloc::reset(1 << 20); let base = alloc::live();
+    let ok_ = match c.mode { Mode::Key => kc::decrypt::key_decrypt(&mut rd, &mut sink, &rsk, &rpk, kc::AsymFileFormat::V1).is_ok(), Mode::Pass => kc::decrypt::pass_decrypt(&mut rd, &mut sink, PW, kc::PassFileFormat::V1).is_ok() };
+    let peak = alloc::peak() - base;
+    if c.tail > 0 && ok_ { return Err(format!("a file followed by {} extra bytes decrypted successfully", c.tail)); }
+    if peak > bd + 128 * 1024 { return Err(format!("peak heap while decrypting a file followed by {} bytes is {} bytes; {} bytes for a 256 KiB file: memory grows with the input", c.tail, peak, bd)); }
+    ok(c.tail >= 3 * CS as u64, format!("{:?}/tail{}", c.mode, if c.tail >= 1 << 20 { ">=1MiB" } else { "<1MiB" }))
+}
+
 pub fn run(ctx: &Ctx) {
     set_rule("C11", "(size from {0, 1, 65535, 65536, 65537, 3*65536, ...} and log-uniform up to the tier bound, mode, read-size pattern): the plaintext is a function of the offset produced on the fly, encryption output is piped through a bounded pre-allocated ring into decryption on a second thread, the final sink compares every buffer with the generator. Oracles: thread-local peak live heap of each library call <= the same call on a 256 KiB input + 128 KiB and <= 4 MiB (+34 MiB with scrypt); with full reads, when more than two further chunks have been consumed the earlier chunk has been written (both directions, inline counters); every byte and the total length arrive intact. Non-trivial = size >= 3 chunks; distinct by (size, mode, pattern)");
     ctx.assume("the harness objects allocate nothing during the measured calls, so thread-local heap figures are the library's alone");
@@ -140,6 +166,7 @@ pub fn run(ctx: &Ctx) {
     ctx.sse_vec("fixed_sizes", "boundary sizes x both modes, full reads", fixed, check);
     ctx.sse_vec("pipe_like_reads", "512-byte and half-buffer reads (a short read is a whole chunk): the lag bound counts chunks, not bytes", vec![Case { size: 300_000, mode: Mode::Key, seed: 11, read_var: 3 }, Case { size: 100_000, mode: Mode::Pass, seed: 12, read_var: 3 }, Case { size: 1 << 20, mode: Mode::Key, seed: 13, read_var: 2 }, Case { size: 1 << 20, mode: Mode::Key, seed: 14, read_var: 1 }], check);
     ctx.pbt("sizes", ctx.n(48, 300), || (prop_oneof![2 => 0u64..400_000, 6 => (17u32..=maxlog, 0u64..1000).prop_map(|(e, m)| (1u64 << e) + ((1u64 << e) * m / 1000))], prop_oneof![3 => Just(Mode::Key), 1 => Just(Mode::Pass)], any::<u64>(), 0u8..4).prop_map(|(size, mode, seed, read_var)| { let size = if read_var == 3 { size.min(2 << 20) } else { size }; Case { size, mode, seed, read_var } }), check);
+    ctx.sse_vec("data_after_final_chunk", "a complete file followed by 0 B .. 64 MiB of further input, both modes: decryption memory stays at the small-file level", [0u64, 1, 70_000, 1 << 20, 64 << 20].iter().flat_map(|&tail| [Mode::Key, Mode::Pass].map(move |mode| TailCase { tail, mode, seed: tail + 7 })).collect(), check_tail);
     if !ctx.quick() { ctx.sse_vec("five_gib", "one 5 GiB stream (crosses 2^32 bytes and 65536 chunks)", vec![Case { size: 5 << 30, mode: Mode::Key, seed: 5, read_var: 0 }], check); }
     let b = BASELINE.lock().unwrap(); ctx.put("baseline_peak_256KiB", serde_json::json!(b.iter().map(|(m, e, d)| serde_json::json!({"mode": format!("{:?}", m), "encrypt_peak": e, "decrypt_peak": d})).collect::<Vec<_>>()));
 }
